@@ -28,6 +28,8 @@ func (reqloadDom) Gen(r *gen.R, tier string, emit func(string)) {
 	if tier == "thorough" {
 		n = 600
 	}
+	emit(wire.Line("restart", "1"))
+	emit(wire.Line("restart", "2"))
 	for i := 0; i < n; i++ {
 		workers := r.Pick([]string{"1", "1", "2", "3", "32"})
 		inch := r.Pick([]string{"1", "2", "4", "1024"})
@@ -39,8 +41,56 @@ func (reqloadDom) Gen(r *gen.R, tier string, emit func(string)) {
 	}
 }
 
+// reqRestart: the only worker is busy and a callback for another resource is still waiting
+// in the shared queue when the service is shut down; after Serve is called again, requests on
+// both resources must be answered (nothing of the previous run may be left behind).
+func reqRestart(workers int) string {
+	s := res.NewService("svc")
+	s.SetLogger(svc.NopLogger{})
+	s.SetWorkerCount(workers)
+	s.Handle("item.$id", res.GetResource(func(r res.GetRequest) { r.Model(map[string]string{"id": r.PathParam("id")}) }))
+	run, err := svc.Start(s)
+	if err != nil {
+		return "start-failed"
+	}
+	release := make(chan struct{})
+	var busy sync.WaitGroup
+	busy.Add(workers)
+	for i := 0; i < workers; i++ {
+		s.With("svc.item.a"+strconv.Itoa(i), func(res.Resource) { busy.Done(); <-release })
+	}
+	busy.Wait()
+	s.With("svc.item.b", func(res.Resource) {}) // waits in the shared queue
+	sd := make(chan struct{})
+	go func() { s.Shutdown(); close(sd) }()
+	time.Sleep(5 * time.Millisecond)
+	close(release)
+	select {
+	case <-sd:
+	case <-time.After(5 * time.Second):
+		return "shutdown-hung"
+	}
+	<-run.Done
+	run, err = svc.Start(s)
+	if err != nil {
+		return "restart-failed"
+	}
+	defer run.Stop()
+	answered := 0
+	for _, id := range []string{"a0", "b", "c"} {
+		if _, ok := run.Request("get.svc.item."+id, nil, 1500); ok {
+			answered++
+		}
+	}
+	return fmt.Sprintf("restart sent=3 answered=%d", answered)
+}
+
 func (reqloadDom) Exec(a []string) string {
 	return Safe(func() string {
+		if len(a) == 2 && a[0] == "restart" {
+			n, _ := strconv.Atoi(a[1])
+			return reqRestart(n)
+		}
 		if len(a) < 8 || a[0] != "load" {
 			return "bad-op"
 		}
